@@ -1405,7 +1405,9 @@ MANIFEST = {
             "for contiguous partitions (row blocks are views) and interleaved ones (copies written back) "
             "(R8-R11: the history arrays are objects with identity created by the rule; loops, helpers, aliases and local names are evaluated away); "
             "the rigid-body set get_su_coef is given by SolveUnc is the solver's own index set whether or not it is empty - None is accepted only if "
-            "get_su_coef itself reads None as 'no mode' (R12). "
+            "get_su_coef itself reads None as 'no mode' (R12); no bounded coefficient is computed through an overflowing intermediate (R13); with the rigid-body "
+            "set given, the formulas chosen for an elastic mode are the same at both ends of the family of modes that differ from it by a change of the time "
+            "unit only - the under / critical / over switch looks at dimensionless quantities (R14). "
             "Does not decide round-off levels, "
             "conditioning grades or library eigen/expm calls.",
     "note": "Trusted: CPython ast parser, the exact rational normal-form engine (verifier/e2_formula.py), the abstract interpreter verifier/e2_eval.py + "
